@@ -85,7 +85,11 @@ func c20Sched(t *simrt.Tape, steps int) simrt.Config {
 }
 
 func runC20(x *xctx) *violation {
-	if x.t.Bool(simrt.KCfg, 6) {
+	enumPct := 3
+	if x.tier == "thorough" {
+		enumPct = 8
+	}
+	if x.t.Bool(simrt.KCfg, enumPct) {
 		switch x.t.Choose(simrt.KCfg, 3) {
 		case 0:
 			return c20Exhaustive(x, "tempfiles", c20TempFiles)
